@@ -114,6 +114,36 @@ for cls, pool in ((seq.NucleotideSequence, "ACGT"), (seq.NucleotideSequence, "AN
                     lambda cls=cls, t=t: seq_behaviour(cls, "".join(t)))
 
 
+def equality_contract():
+    """== agrees with: same type, same alphabet, same symbol string"""
+    A1, A2 = seq.LetterAlphabet("ABC"), seq.LetterAlphabet("XYZ")
+    G1, G2 = seq.Alphabet(["foo", "bar", 42]), seq.Alphabet([42, "foo", "bar"])
+    items = []
+    for text in ("", "A", "AB", "ABCA", "CAB"):
+        items.append(("general/ABC", text, seq.GeneralSequence(A1, text)))
+        items.append(("general/XYZ", text.translate(str.maketrans("ABC", "XYZ")),
+                      seq.GeneralSequence(A2, text.translate(str.maketrans("ABC", "XYZ")))))
+    for syms in (["foo"], ["foo", "bar"], [42, "foo"]):
+        items.append(("general/G1", repr(syms), seq.GeneralSequence(G1, syms)))
+        items.append(("general/G2", repr(syms), seq.GeneralSequence(G2, syms)))
+    for text in ("", "A", "ACGT", "ACGA"):
+        items.append(("nuc/unamb", text, seq.NucleotideSequence(text)))
+        items.append(("nuc/amb", text, seq.NucleotideSequence(text, ambiguous=True)))
+        items.append(("protein", text, seq.ProteinSequence(text)))
+    for k1, t1, s1 in items:
+        for k2, t2, s2 in items:
+            same_alph = s1.get_alphabet() == s2.get_alphabet()
+            symbols_equal = list(s1.symbols) == list(s2.symbols)
+            expected = type(s1) is type(s2) and same_alph and symbols_equal
+            got = (s1 == s2)
+            if bool(got) != expected:
+                return (f"{k1} {t1!r} == {k2} {t2!r} gives {got}; same type {type(s1) is type(s2)}, "
+                        f"same alphabet {same_alph}, same symbols {symbols_equal}")
+            if expected and (s1 != s2):
+                return f"{k1} {t1!r} != {k2} {t2!r} although equal"
+    return None
+
+
 def translate_contract(table_id):
     table = seq.CodonTable.load(table_id)
     before = dict(table.codon_dict())
@@ -180,6 +210,8 @@ def mapper_contract():
     return None
 
 
+R.check("sequence objects agree with their strings", "equality across types and alphabets", {"pairs": "general/nucleotide/protein x alphabets"},
+        equality_contract)
 R.check("mapping codes between alphabets preserves the symbols", "alphabet mapper", {"from": "unamb", "to": "amb"}, mapper_contract)
 
 
